@@ -23,6 +23,7 @@ CONSTANTS
   Zoned <- MCZoned
   Others <- %(others)s
   ValidOthers <- MCOthersValid
+  Redirects <- MCRedirects
   Member <- MCMemberAll
   Schemes <- %(schemes)s
   KnownSchemes <- MCKnown
@@ -46,7 +47,7 @@ def cfg(spec, items, xff, auth=True, protos="MCBoth", inv=False, chain=None, nes
     if nest:
         fills = "MCFillsNest"
     return CFG % dict(spec=spec, items=items, xff=xff, protos=protos, pres=pres, sufs=sufs, fills=fills,
-                      others="MCOthersAll" if others else "MCOthersNone",
+                      others={False: "MCOthersNone", True: "MCOthersAll", "redirect": "MCOthersRedirect"}[others],
                       itemset="MCItemsNest" if nest else "MCItems", wfset="MCWFItemsNest" if nest else "MCWFItems",
                       addrset="MCAddrsNest" if nest else "MCAddrs",
                       schemes="MCSchemes" if auth else "MCNoAuthSchemes",
@@ -187,8 +188,8 @@ def run(ctx):
         "universe: rule items {A=v4 /8, B=v4 host, C=v6 /10, nested: An=narrower block inside A with A's network address, Ah=that address as host, Cn=narrower block inside C, ip:<v4>/33, ip:notanip, item without type, unknown type}, lists of <=%d items as allow / deny / both; peers and X-Forwarded-For elements {in A, in B, v4 outside, in C, v6 outside, zone-scoped v6 in C}, chains of <=2 judged elements surrounded by {0,1,2,15,16,17,40,200} filler hops in front and {0,1,20} behind, on one or several header lines; schemes {none, basic (configured), unconfigured name}; credentials {none, good, bad, malformed header}" % ctx.pick(2, 3),
         "for an undocumented configuration (unparsable item, allow and deny together) and for zone-scoped addresses the specification fixes only the upper bound (never admit what the well-formed part / the address part would not admit); denying more is permitted there",
         "the unparsable items name blocks containing no address of the universe, so a more lenient parser would be judged the same",
-        "other options of the same target {none, strip=, host=dst, tlsskipverify= (valid); redirect=3O1, redirect=200, proto=<unknown>, an unknown option (malformed)} combined with every rule list: they never take part in the decision; a target with a malformed one may be refused as a whole or deny more, it must not admit more",
-        "authentication histories: <=3 login attempts over {good, changed password, wrong password, shifted user/password split, empty user, empty password, other user, crossed, none, malformed} with <=1 replacement of the htpasswd file (3 contents; modification time newer, older or equal to the loaded one - equal leaves either content permitted; a refresh missing after 250 intervals = 5 s counts as not applied) on a fresh scheme instance per history; the verdict must follow from the attempt and the content in force",
+        "other options of the same target {none, strip=, host=dst, tlsskipverify= (valid); redirect=3O1, redirect=200, proto=<unknown>, an unknown option (malformed); redirect=301 (valid: the route answers 30x instead of forwarding - the 30x is gated by rules and scheme like a forwarded request)} combined with every rule list: they never take part in the decision; a target with a malformed one may be refused as a whole or deny more, it must not admit more",
+        "authentication histories: <=3 login attempts over {good, changed password, wrong password, shifted user/password split, empty user, empty password, other user, crossed, none, malformed} with <=1 replacement of the htpasswd file (3 contents; modification time newer, older or equal to the loaded one - equal leaves either content permitted; a refresh missing after 250 intervals = 5 s counts as not applied); the file may also disappear and come back, up to 3 file events per history: while it is gone nobody is accepted on a fresh scheme instance per history; the verdict must follow from the attempt and the content in force",
         "routes with two targets carrying their own rules (none / allow or deny of one block each) and instances up or down, 4 requests each so that the round-robin picker uses both: a request may reach only an instance whose own target's rules admit it; failing or trying another (checked) target after a failed connect are both permitted",
         "when access and authentication both fail, 403 and 401 are both accepted (the statement fixes no order)",
         "end to end runs use loopback sources (127.0.0.0/8, ::1 and, when the host has one, a link-local address for the zone-scoped peer); the IPv6-outside peer exists only at decision level and as an X-Forwarded-For element",
@@ -196,8 +197,8 @@ def run(ctx):
     # 1. the clauses on the models (the broken design must be caught) and 2. the cases - independent TLC runs,
     #    several at a time
     T = ctx.tmp
-    acc, gate, nestc, chainc, otherc, histc, histr, multic = (os.path.join(T, "c12.%s.cases" % n) for n in
-                                                              ("access", "gate", "nest", "chain", "other", "hist", "histreload", "multi"))
+    acc, gate, nestc, chainc, otherc, histc, histr, multic, histx, redirc = (os.path.join(T, "c12.%s.cases" % n) for n in
+                                                              ("access", "gate", "nest", "chain", "other", "hist", "histreload", "multi", "histremove", "redirect"))
     mcfg = cfg("MSpec", 1, 1, auth=False).replace("Items <- MCItems", "Items <- MCWFItems")
 
     def multi_mc():
@@ -229,6 +230,15 @@ def run(ctx):
                 return True
         return f
 
+    def hist_mc_removal():
+        h = ctx.tlc("AccessHist_MC", cfg_text=hist_cfg("Spec", "MCCredsTiny", 2, 3, inv=True, mtimes="MCMTimesAll", removal=True), workers=4, timeout=600)
+        with _settle:
+            ctx.log("MC auth histories with the file disappearing: %d generated, %d distinct, %.0fs" % (h.generated, h.distinct, h.wall))
+            if not ctx.need_tlc_ok(h, "AccessHist MC removal"):
+                return False
+            ctx.cover("mc-authhist-removal", states=h.distinct, transitions=h.generated)
+            return True
+
     def hist_bad():
         bad = ctx.tlc("AccessHist_MC", cfg_text=hist_cfg("Spec", "MCCredsFull", 3, 1, memo="concat", inv=True), workers=4, timeout=300)
         with _settle:
@@ -239,9 +249,9 @@ def run(ctx):
             ctx.log("MC auth histories, broken design (memo keyed by the concatenation): violates HistoryIndependent after %d states, as required" % bad.generated)
             return True
 
-    def hist_gen(sink, creds, reloads, what):
+    def hist_gen(sink, creds, reloads, what, attempts=3, **kw):
         def f():
-            r = ctx.tlc("AccessHist_MC", cfg_text=hist_cfg("GenSpec", creds, 3, reloads), workers=4, json_sink=sink, timeout=600)
+            r = ctx.tlc("AccessHist_MC", cfg_text=hist_cfg("GenSpec", creds, attempts, reloads, **kw), workers=4, json_sink=sink, timeout=600)
             with _settle:
                 if not ctx.need_tlc_ok(r, "AccessHist Gen " + what):
                     return False
@@ -268,15 +278,21 @@ def run(ctx):
         lambda: mc(ctx, "chains", ctx.pick(1, 2), 1, False, ctx.pick(200, 900), chain=ctx.pick(CHAIN_Q, CHAIN_T), protos="MCHttp"),
         # authentication over histories: the design and the pair-keyed memo hold, the concatenation-keyed memo must not
         hist_mc("none"), hist_bad,
+        lambda: hist_mc_removal(),
         # cases: every configuration x peer x chain without authentication; the product with schemes and
         # credentials on the smaller configuration universe; the special universes
         lambda: gen(ctx, "access", acc, ctx.pick(2, 3), 2, False),
         lambda: gen(ctx, "gate", gate, ctx.pick(1, 2), 1, True, protos="MCHttp"),
         lambda: gen(ctx, "nested-blocks", nestc, ctx.pick(2, 3), ctx.pick(1, 2), False, nest=True),
         lambda: gen(ctx, "other-options", otherc, ctx.pick(1, 2), 1, False, others=True),
+        # redirecting routes with authentication: who is told the new location is gated like a forwarded request
+        lambda: gen(ctx, "redirect+auth", redirc, 1, 1, True, protos="MCHttp", others="redirect"),
+        lambda: mc(ctx, "redirect+auth", 1, 1, True, ctx.pick(200, 900), others="redirect"),
         lambda: gen(ctx, "chains", chainc, ctx.pick(1, 2), 1, False, protos="MCHttp", chain=ctx.pick(CHAIN_Q, CHAIN_T)),
         hist_gen(histc, "MCCredsFull", 0, "no-reload"),
         hist_gen(histr, ctx.pick("MCCredsSmall", "MCCredsFull"), 1, "one-reload"),
+        # the htpasswd file disappears and comes back, more than once
+        hist_gen(histx, "MCCredsTiny", 3, "file-disappears", attempts=2, mtimes="MCMTimesNewer", removal=True),
         multi_gen,
     ]
     if ctx.thorough:
@@ -291,12 +307,14 @@ def run(ctx):
     sample(ctx, chainc, allc, ctx.pick(1.0, 0.10), always=clean_rules)
     sample(ctx, nestc, allc, 1.0)
     sample(ctx, otherc, allc, ctx.pick(1.0, 0.3), always=clean_rules)
+    sample(ctx, redirc, allc, ctx.pick(0.5, 1.0), pred=lambda l: "redirect-valid" in l)
     httpc = os.path.join(ctx.tmp, "c12.http.cases")
     n1 = sample(ctx, gate, httpc, ctx.pick(0.5, 1.0), proto="http")
     n2 = sample(ctx, acc, httpc, ctx.pick(0.08, 0.06), proto="http", always=clean_rules)
     n2 += sample(ctx, chainc, httpc, ctx.pick(0.10, 0.03), proto="http")
     n2 += sample(ctx, nestc, httpc, ctx.pick(0.5, 0.15), proto="http")
     n2 += sample(ctx, otherc, httpc, ctx.pick(0.5, 0.05), proto="http", always=clean_rules)
+    n2 += sample(ctx, redirc, httpc, ctx.pick(0.3, 0.6), proto="http", pred=lambda l: "redirect-valid" in l)
     tcpc = os.path.join(ctx.tmp, "c12.tcp.cases")
     sample(ctx, acc, tcpc, 1.0, proto="tcp")
     sample(ctx, nestc, tcpc, 1.0, proto="tcp")
@@ -304,6 +322,7 @@ def run(ctx):
     hall = os.path.join(ctx.tmp, "c12.hist.all")
     sample(ctx, histc, hall, 1.0)
     nrel = sample(ctx, histr, hall, ctx.pick(0.12, 0.08), always=None, pred=lambda l: '"reload"' in l and l.count('"attempt"') == 3)
+    nrel += sample(ctx, histx, hall, ctx.pick(0.15, 0.5), pred=lambda l: '"remove"' in l and l.count('"attempt"') == 2)
     mh = os.path.join(ctx.tmp, "c12.multi.http")
     sample(ctx, multic, mh, ctx.pick(0.3, 1.0), proto="http")
     mt = os.path.join(ctx.tmp, "c12.multi.tcp")
@@ -336,8 +355,8 @@ def run(ctx):
     if r is None:
         return
     s = r.summary
-    ctx.log("HTTP end to end: %d cases (%d gate + %d access), %d run with %d requests over %s, %d forwarded / %d denied, %d with a real zone-scoped peer, %d skipped (no such source address), %d failed, %.0fs"
-            % (s["cases"], n1, n2, s["ran"], s["requests"], s["listeners"], s["forwarded"], s["denied"], s["zoned_peer_cases"], s["skipped_no_source_address"], s["fails"], r.wall))
+    ctx.log("HTTP end to end: %d cases (%d gate + %d access), %d run with %d requests over %s, %d forwarded / %d redirected / %d denied, %d with a real zone-scoped peer, %d skipped (no such source address), %d failed, %.0fs"
+            % (s["cases"], n1, n2, s["ran"], s["requests"], s["listeners"], s["forwarded"], s.get("redirected", 0), s["denied"], s["zoned_peer_cases"], s["skipped_no_source_address"], s["fails"], r.wall))
     if s["ran"] == 0 or s["forwarded"] == 0 or s["denied"] == 0:
         ctx.inconclusive("HTTP end to end run is vacuous: %s" % json.dumps(s)[:400])
     ctx.cover("http", traces_validated_against_impl=s["ran"], evaluations=s["requests"], distinct_nontrivial=s["distinct_nontrivial"],
